@@ -78,7 +78,7 @@ func init() {
 			return 48
 		},
 		Batches: func(t string) int { return 16 },
-		Rule: "case = one history of WriteBytes (payload lengths biased to 0,1,2,7,8,9,55,56,255,256,4087,4088,4089,4096,8184,8192 and random) / Sync / Shift / Close+reopen on the real file WAL (2/3 with housekeeping idle and explicit Shift, 1/3 with a 10 ms housekeeper and a FileLimit of 64..600 bytes so that doHousekeeping rotates; the history waits until the new segment is observable). Crash = copy of the segment files with the newest segment truncated to EVERY length from its synced length to its current length (byte-exhaustive for tails up to 700 bytes quick / 1500 thorough; larger tails: all offsets within 12 bytes of a frame boundary or a 4096 multiple, the first and last 200, and 200 random ones), plus the variant where a just-created empty newest segment is absent. Each image is recovered with the protocol of consensus.applyRoundWAL (read until error; EOF clean; corrupted/unexpected EOF -> CloseAndRepair; when a repair happened the log is reopened once more), then a writer is reopened, 1-2 records are appended and synced, optionally Shift, 0-2 further records stay unsynced, and the log is crashed again: byte-exhaustively for images selected by class (boundary classes with the per-depth probabilities of the tier), otherwise only with the complete tail; depth 3 quick / 5 thorough. Oracle after EVERY recovery: synced ⊑ recovered ⊑ appended. Non-trivial = distinct crash image (hash of the whole lineage) whose crash offset is strictly inside a frame (header or payload) or at the start of a rotated segment.",
+		Rule: "case = one history of WriteBytes (payload lengths biased to 0,1,2,7,8,9,55,56,255,256,4087,4088,4089,4096,8184,8192 and random) / Sync / Shift / Close+reopen on the real file WAL (2/3 with housekeeping idle and explicit Shift, 1/3 with a 10 ms housekeeper and a FileLimit of 64..600 bytes so that doHousekeeping rotates; half of those also with retention ON: TotalLimit 2-3x FileLimit, so that the eldest segments are deleted and the head index is > 0 before the crash; the history waits until the new segment / the removal is observable). Records of segments that housekeeping removed before the crash are outside the statement: the expected list starts at the first record of the oldest segment of the crash image (the monitor notes the first record index of every segment when it first observes it). Crash = copy of the segment files with the newest segment truncated to EVERY length from its synced length to its current length (byte-exhaustive for tails up to 700 bytes quick / 1500 thorough; larger tails: all offsets within 12 bytes of a frame boundary or a 4096 multiple, the first and last 200, and 200 random ones), plus the variant where a just-created empty newest segment is absent. Each image is recovered with the protocol of consensus.applyRoundWAL (read until error; EOF clean; corrupted/unexpected EOF -> CloseAndRepair; when a repair happened the log is reopened once more), then a writer is reopened, 1-2 records are appended and synced, optionally Shift, 0-2 further records stay unsynced, and the log is crashed again: byte-exhaustively for images selected by class (boundary classes with the per-depth probabilities of the tier), otherwise only with the complete tail; depth 3 quick / 5 thorough. Oracle after EVERY recovery: synced ⊑ recovered ⊑ appended. Non-trivial = distinct crash image (hash of the whole lineage) whose crash offset is strictly inside a frame (header or payload) or at the start of a rotated segment.",
 		MinNonTrivial: func(t string) int {
 			if t == ev.Thorough {
 				return 300000
@@ -91,11 +91,12 @@ func init() {
 			"images_tear_in_first_record_of_rotated_segment", "images_empty_rotated_segment", "images_rotated_segment_absent",
 			"appends_after_recovery", "records_recovered", "synced_records_checked",
 			"explicit_shifts", "housekeeper_rotations", "close_reopen_ops", "tails_byte_exhaustive",
+			"retention_removed_segments", "images_head_index_gt0", "recoveries_after_retention_dropped_head",
 			"depth_1_images", "depth_2_images", "depth_3_images",
 		},
 		Assumptions: []string{
 			"crash model of the statement: the file system keeps every byte covered by a completed Sync/Shift/Close and an arbitrary PREFIX of the bytes written after it; older segments are complete once a newer one exists (shift syncs before creating it)",
-			"log retention (TotalLimit) is switched off: deleting old segments is outside the statement",
+			"log retention: records in segments deleted by housekeeping before the crash are not expected back; everything from the first record of the oldest surviving segment is",
 			"scratch directory on tmpfs when /dev/shm exists (fsync durability is modelled by the monitor, not by the disk)",
 			"a crash during Sync (after the buffer flush, before fsync returns) is simulated by calling Sync and not advancing the synced watermark",
 		},
@@ -127,6 +128,14 @@ type model struct {
 	syncedSize map[uint64]int64 // bytes per segment known durable
 	hist       []string         // lineage log (witness)
 	nextSeq    int
+	// retention bookkeeping: segFirst[k] = index (in appended) of the first
+	// record of segment k, noted when the segment is first observed (a shift
+	// flushes every buffered record into the old segment first, so a record
+	// never straddles segments); base = first record of the oldest segment of
+	// the crash image: records before it were removed by housekeeping (log
+	// retention) before the crash and are outside the statement.
+	segFirst map[uint64]int
+	base     int
 	// blame names the first recovery of the lineage that ended with a clean
 	// EOF although the image ended inside a frame (the partial frame stays in
 	// the log); a later violation of the lineage is keyed by it.
@@ -134,7 +143,11 @@ type model struct {
 }
 
 func (m *model) clone() *model {
-	n := &model{synced: m.synced, nextSeq: m.nextSeq, blame: m.blame}
+	n := &model{synced: m.synced, nextSeq: m.nextSeq, blame: m.blame, base: m.base}
+	n.segFirst = map[uint64]int{}
+	for k, v := range m.segFirst {
+		n.segFirst[k] = v
+	}
 	n.appended = append([][]byte(nil), m.appended...)
 	n.hist = append([]string(nil), m.hist...)
 	n.syncedSize = map[uint64]int64{}
@@ -142,6 +155,18 @@ func (m *model) clone() *model {
 		n.syncedSize[k] = v
 	}
 	return n
+}
+
+// noteSegments records the first record index of segments seen for the first time.
+func (m *model) noteSegments(sz map[uint64]int64) {
+	if m.segFirst == nil {
+		m.segFirst = map[uint64]int{}
+	}
+	for k := range sz {
+		if _, ok := m.segFirst[k]; !ok {
+			m.segFirst[k] = len(m.appended)
+		}
+	}
 }
 
 func (m *model) logf(format string, args ...interface{}) {
@@ -213,11 +238,18 @@ func listSegs(dir string) ([]seg, error) {
 	sort.Slice(out, func(i, j int) bool { return out[i].idx < out[j].idx })
 	for i := range out {
 		if out[i].data, err = os.ReadFile(segPath(dir, out[i].idx)); err != nil {
+			if os.IsNotExist(err) && i == 0 && len(out) > 1 {
+				// eldest segment removed by retention while listing: image without it
+				out = out[1:]
+				return listSegsRetry(dir, out)
+			}
 			return nil, err
 		}
 	}
 	return out, nil
 }
+
+func listSegsRetry(dir string, _ []seg) ([]seg, error) { return listSegs(dir) }
 
 func segSizes(dir string) (map[uint64]int64, error) {
 	ents, err := os.ReadDir(dir)
@@ -235,6 +267,9 @@ func segSizes(dir string) (map[uint64]int64, error) {
 		}
 		fi, err := e.Info()
 		if err != nil {
+			if os.IsNotExist(err) {
+				continue // removed by retention between ReadDir and lstat
+			}
 			return nil, err
 		}
 		out[idx] = fi.Size()
@@ -377,6 +412,7 @@ func (x *writer) durable(op string) error {
 	if err != nil {
 		return err
 	}
+	x.m.noteSegments(sz)
 	x.m.synced = len(x.m.appended)
 	x.m.syncedSize = sz
 	x.m.logf("%s completed: synced=%d files[%s]", op, x.m.synced, describeSizes(sz))
@@ -433,7 +469,11 @@ func (x *writer) awaitRotation(c *ev.Ctx) (bool, error) {
 				tail = k
 			}
 		}
-		if sz[tail] <= x.cfg.FileLimit {
+		var total int64
+		for _, v := range sz {
+			total += v
+		}
+		if sz[tail] <= x.cfg.FileLimit && total <= x.cfg.TotalLimit {
 			return true, nil
 		}
 		if time.Now().After(deadline) {
@@ -548,6 +588,8 @@ func (e *explorer) witness(m *model, dir string, rc *recovery, extra map[string]
 		"lineage":         m.hist,
 		"appended_lens":   lens(m.appended),
 		"synced_records":  m.synced,
+		"first_expected_record_index": m.base,
+		"segment_first_record": fmt.Sprint(m.segFirst),
 		"expectation":     "synced ⊑ recovered ⊑ appended (prefix order)",
 		"payload_rule":    "payload(salt,seq,len,kind): kind 0 = math/rand stream seeded salt+seq*7919, 1 = zeros, 2 = 0xff, 3 = repeated (seq,i%5) words; first 2 bytes = seq",
 		"recovery_method": "OpenWALForRead; ReadBytes until error; EOF=clean; corrupted/unexpected EOF=CloseAndRepair (as consensus.applyRoundWAL)",
@@ -587,30 +629,44 @@ func (e *explorer) check(m *model, dir string, rc *recovery, cause, phase string
 		c.Count("repairs", 1)
 	}
 	c.Count("reader_end_"+rc.endErr, 1)
-	// recovered ⊑ appended
+	// recovered ⊑ appended (from the first record of the oldest surviving segment)
+	if m.base > len(m.appended) {
+		m.base = len(m.appended)
+	}
+	all := m.appended
+	mAppended := all[m.base:]
+	mSynced := m.synced - m.base
+	if mSynced < 0 {
+		mSynced = 0
+	}
 	for i, rec := range rc.recs {
-		if i >= len(m.appended) {
+		if i >= len(mAppended) {
 				c.Violation("wal.recovered-record-never-appended."+cause, e.witness(m, dir, rc, map[string]interface{}{"phase": phase, "index": i, "record": short(rec)}))
 			return false
 		}
-		if !bytes.Equal(rec, m.appended[i]) {
-				c.Violation("wal.recovered-record-differs."+cause, e.witness(m, dir, rc, map[string]interface{}{"phase": phase, "index": i, "record": short(rec), "appended": short(m.appended[i])}))
+		if !bytes.Equal(rec, mAppended[i]) {
+				c.Violation("wal.recovered-record-differs."+cause, e.witness(m, dir, rc, map[string]interface{}{"phase": phase, "index": i, "record": short(rec), "appended": short(mAppended[i])}))
 			return false
 		}
 	}
 	c.Count("records_recovered", len(rc.recs))
 	// synced ⊑ recovered
-	if len(rc.recs) < m.synced {
-		c.Violation("wal.synced-record-lost."+cause, e.witness(m, dir, rc, map[string]interface{}{"phase": phase, "first_lost_index": len(rc.recs), "first_lost_record": short(m.appended[len(rc.recs)])}))
+	if len(rc.recs) < mSynced {
+		c.Violation("wal.synced-record-lost."+cause, e.witness(m, dir, rc, map[string]interface{}{"phase": phase, "first_lost_index": m.base + len(rc.recs), "first_lost_record": short(mAppended[len(rc.recs)])}))
 		return false
 	}
-	c.Count("synced_records_checked", m.synced)
-	if len(rc.recs) < len(m.appended) {
-		c.Count("unsynced_records_dropped", len(m.appended)-len(rc.recs))
+	c.Count("synced_records_checked", mSynced)
+	if len(rc.recs) < len(mAppended) {
+		c.Count("unsynced_records_dropped", len(mAppended)-len(rc.recs))
 	}
-	if len(rc.recs) > m.synced {
-		c.Count("unsynced_records_survived", len(rc.recs)-m.synced)
+	if len(rc.recs) > mSynced {
+		c.Count("unsynced_records_survived", len(rc.recs)-mSynced)
 	}
+	if m.base > 0 {
+		c.Count("recoveries_after_retention_dropped_head", 1)
+	}
+	// what was not recovered is gone for the rest of the lineage
+	m.appended = all[:m.base+len(rc.recs)]
 	return true
 }
 
@@ -715,6 +771,12 @@ func (e *explorer) explore(img *image, cp crashPoint, m *model, depth int) {
 		return
 	}
 	tailIdx := img.segs[len(img.segs)-1].idx
+	if v, ok := m.segFirst[img.segs[0].idx]; ok {
+		m.base = v
+	}
+	if img.segs[0].idx > 0 {
+		c.Count("images_head_index_gt0", 1)
+	}
 	if cp.dropTail {
 		m.logf("CRASH#%d: newest segment %s_%d (empty, just created) absent", depth, walName, tailIdx)
 		c.Count("images_rotated_segment_absent", 1)
@@ -760,7 +822,6 @@ func (e *explorer) explore(img *image, cp crashPoint, m *model, depth int) {
 	if rc.repaired && len(img.segs) > 1 {
 		c.Count("repairs_multi_segment", 1)
 	}
-	m.appended = append([][]byte(nil), rc.recs...)
 	if rc.repaired {
 		// a crash right after the repair, nothing appended: reopen again
 		rc2 := recoverLikeConsensus(id)
@@ -772,7 +833,6 @@ func (e *explorer) explore(img *image, cp crashPoint, m *model, depth int) {
 		if !e.check(m, dir, &rc2, cause, "reopen-after-repair") {
 			return
 		}
-		m.appended = append([][]byte(nil), rc2.recs...)
 	}
 	// file sizes known durable cannot exceed what is there now
 	if sz, err := segSizes(dir); err == nil {
@@ -784,6 +844,14 @@ func (e *explorer) explore(img *image, cp crashPoint, m *model, depth int) {
 				m.syncedSize[k] = cur
 			}
 		}
+	}
+	if sz, err := segSizes(dir); err == nil {
+		for k := range m.segFirst {
+			if _, ok := sz[k]; !ok {
+				delete(m.segFirst, k)
+			}
+		}
+		m.noteSegments(sz)
 	}
 	if depth >= e.p.maxDepth {
 		c.Count("lineages_completed", 1)
@@ -870,7 +938,7 @@ var bigLens = []int{4079, 4080, 4081, 4087, 4088, 4089, 4096, 4097, 8184, 8192}
 // history runs the level-0 history and returns the snapshot at the crash.
 func (e *explorer) history(ci int) (*image, *model) {
 	c, r := e.c, e.r
-	m := &model{syncedSize: map[uint64]int64{}}
+	m := &model{syncedSize: map[uint64]int64{}, segFirst: map[uint64]int{0: 0}} // the first segment of an empty directory is w_0
 	dir, err := e.dirFor(0)
 	if err != nil {
 		c.Notef("harness: %v", err)
@@ -878,15 +946,20 @@ func (e *explorer) history(ci int) (*image, *model) {
 	}
 	cfg := idleCfg()
 	housekeeper := ci%3 == 2
+	retention := ci%6 == 5 // housekeeper that also deletes the eldest segments (TotalLimit)
 	if housekeeper {
 		cfg.FileLimit = int64(64 + r.Intn(537))
 		cfg.HousekeepingInterval = 10 * time.Millisecond
-		if r.Intn(2) == 0 {
+		if retention {
+			cfg.FileLimit = int64(64 + r.Intn(137))
+			cfg.TotalLimit = 2*cfg.FileLimit + int64(r.Intn(int(cfg.FileLimit)))
+			// no timed sync: segment membership of a record must be known exactly
+		} else if r.Intn(2) == 0 {
 			cfg.SyncInterval = time.Millisecond
 		}
 	}
-	m.logf("OPEN FileLimit=%d housekeeping=%v syncInterval=%v (retention off)", cfg.FileLimit, cfg.HousekeepingInterval, cfg.SyncInterval)
-	c.Note("history %d: housekeeper=%v FileLimit=%d salt=%d", ci, housekeeper, cfg.FileLimit, e.salt)
+	m.logf("OPEN FileLimit=%d TotalLimit=%d housekeeping=%v syncInterval=%v", cfg.FileLimit, cfg.TotalLimit, cfg.HousekeepingInterval, cfg.SyncInterval)
+	c.Note("history %d: housekeeper=%v retention=%v FileLimit=%d TotalLimit=%d salt=%d", ci, housekeeper, retention, cfg.FileLimit, cfg.TotalLimit, e.salt)
 	w, err := openWriter(dir, cfg, m)
 	if err != nil {
 		c.Notef("harness: open: %v", err)
@@ -903,7 +976,7 @@ func (e *explorer) history(ci int) (*image, *model) {
 	if r.Intn(5) == 0 {
 		bigLeft = 1 + r.Intn(2)
 	}
-	segsBefore := 1
+	var maxIdx, minIdx uint64
 	afterOp := func() bool {
 		okRot, err := w.awaitRotation(c)
 		if err != nil {
@@ -915,18 +988,38 @@ func (e *explorer) history(ci int) (*image, *model) {
 			c.Notef("housekeeper did not rotate within the watchdog (machine overloaded?)")
 			return false
 		}
-		if housekeeper {
-			if sz, err := segSizes(dir); err == nil && len(sz) > segsBefore {
-				c.Count("housekeeper_rotations", len(sz)-segsBefore)
-				m.logf("housekeeper rotated: files[%s]", describeSizes(sz))
-				segsBefore = len(sz)
+		sz, err := segSizes(dir)
+		if err != nil {
+			c.Notef("harness: %v", err)
+			return false
+		}
+		m.noteSegments(sz)
+		hi, lo := uint64(0), ^uint64(0)
+		for k := range sz {
+			if k > hi {
+				hi = k
 			}
+			if k < lo {
+				lo = k
+			}
+		}
+		if hi > maxIdx {
+			c.Count("housekeeper_rotations", int(hi-maxIdx))
+			m.logf("housekeeper rotated: files[%s]", describeSizes(sz))
+			maxIdx = hi
+		}
+		if len(sz) > 0 && lo > minIdx {
+			c.Count("retention_removed_segments", int(lo-minIdx))
+			m.logf("housekeeper removed the eldest segment(s): files[%s]; first record still in the log is #%d", describeSizes(sz), m.segFirst[lo])
+			minIdx = lo
 		}
 		return true
 	}
 	doWrite := func() bool {
 		var n int
 		switch x := r.Intn(10); {
+		case retention && x >= 2:
+			n = 20 + r.Intn(110)
 		case bigLeft > 0 && x < 3:
 			n = bigLens[r.Intn(len(bigLens))]
 			bigLeft--
@@ -949,8 +1042,15 @@ func (e *explorer) history(ci int) (*image, *model) {
 		return afterOp()
 	}
 	nOps := 2 + r.Intn(9)
+	if retention {
+		nOps = 14 + r.Intn(12) // enough bytes to exceed TotalLimit
+	}
 	for i := 0; i < nOps; i++ {
-		switch x := r.Intn(100); {
+		x := r.Intn(100)
+		if retention && x >= 50 && x < 65 {
+			x = 70 // more syncs: only bytes in the files drive rotation and retention
+		}
+		switch {
 		case x < 60:
 			if !doWrite() {
 				return nil, nil
@@ -972,7 +1072,7 @@ func (e *explorer) history(ci int) (*image, *model) {
 				return nil, nil
 			}
 			c.Count("explicit_shifts", 1)
-			segsBefore++
+			maxIdx++
 			if !afterOp() {
 				return nil, nil
 			}
@@ -989,6 +1089,15 @@ func (e *explorer) history(ci int) (*image, *model) {
 				return nil, nil
 			}
 			c.Count("close_reopen_ops", 1)
+			if sz, err := segSizes(dir); err == nil && len(sz) > 0 {
+				lo := ^uint64(0)
+				for k := range sz {
+					if k < lo {
+						lo = k
+					}
+				}
+				m.base = m.segFirst[lo]
+			}
 			rc := recoverLikeConsensus(filepath.Join(dir, walName))
 			m.logf("clean restart: %d records, reader ended with %s, repaired=%v", len(rc.recs), rc.endErr, rc.repaired)
 			if !e.check(m, dir, &rc, "clean-close", "clean-restart") {
@@ -1004,8 +1113,8 @@ func (e *explorer) history(ci int) (*image, *model) {
 						c.Violation("wal.reopen-for-write-failed.clean-close", e.witness(m, dir, &rc, map[string]interface{}{"error": err.Error()}))
 				return nil, nil
 			}
-			if sz, err := segSizes(dir); err == nil {
-				segsBefore = len(sz)
+			if !afterOp() {
+				return nil, nil
 			}
 		}
 	}
